@@ -107,6 +107,12 @@ def _replay_engine_neighbors(w, h, d, bc):
             want = {grid_neighbor(system.space, i, n) for n in range(6)} - {None, i}
             if got != want:
                 bad = True
+        if not bad:
+            # a cell that is its own neighbour carries no net Euler flux: look for no-op / illegal Gillespie events instead
+            from ..stochlegs import audit_real
+            system.state = [30.0] * (2 * nc)
+            a = audit_real(system, "gillespie", seeds=range(1, 4), steps=80)
+            bad = "noop-event" in a or "illegal-event" in a
         return bad
     except Exception:
         return False
